@@ -1,7 +1,6 @@
 (* Property C04 — dispatch only reads table cells that update wrote for that class and parameter.
-   Property theorems only. C04_disjoint / C04_in_vtbl (from Proofs/SlotsProofs.v: assign_slots_ok) are added below
-   once that proof is assembled. *)
-From Y2 Require Import Model.Registry Model.Compile Proofs.WalkProofs Proofs.BoundsProofs.
+   Property theorems only. *)
+From Y2 Require Import Model.Registry Model.Compile Spec.Dispatch Proofs.Interfaces Proofs.WalkProofs Proofs.BoundsProofs Proofs.SlotsProofs Proofs.CorollaryProofs.
 
 (* every address read by a multi-method walk that returns a word lies inside dispatch_data *)
 Theorem C04_walk_reads_in_bounds : forall C arity ss vps w,
@@ -13,3 +12,33 @@ Theorem C04_uni_read_in_bounds : forall C ss vps w,
   walk_uni C ss vps = Ok w -> exists vp rest, vps = vp :: rest /\ in_image C (vp + Z.of_nat (nth 0%nat ss 0%nat))%Z.
 Proof. exact walk_uni_in_bounds. Qed.
 Print Assumptions C04_uni_read_in_bounds.
+
+(* After update, for every class z and every (method, virtual parameter) pair that accepts objects of class z
+   (applies: z is among the covariant classes of the parameter's class), the pair's cell lies inside z's v-table,
+   and no other pair applicable to z shares it — whatever the shape of the inheritance lattice. *)
+Theorem C04_cells : forall R C,
+  wf_registry R -> compile R = Ok C ->
+  forall mi p mi' p' z,
+    applies (o_lat C) (o_meths C) mi p z -> applies (o_lat C) (o_meths C) mi' p' z ->
+    (c_first C z <= c_slot C mi p < c_first C z + c_vlen C z) /\
+    (c_slot C mi p = c_slot C mi' p' -> mi = mi' /\ p = p').
+Proof. exact cells_disjoint. Qed.
+Print Assumptions C04_cells.
+
+(* The slot allocator alone, for ANY lattice satisfying the order axioms lat_wf (trees, diamonds, several roots,
+   classes with many bases) and any methods: the invariant holds for every visiting order the traversal takes. *)
+Theorem C04_slot_allocation : forall L ms, lat_wf L -> meths_wf L ms -> slots_ok L ms (assign_slots L ms).
+Proof. exact assign_slots_ok. Qed.
+Print Assumptions C04_slot_allocation.
+
+(* Every address a legal call reads lies inside the policy's dispatch data as sized by that update. *)
+Theorem C04_legal_call_reads_in_bounds : forall R C mi m cs,
+  wf_registry R -> compile R = Ok C -> nth_error (r_methods R) mi = Some m ->
+  Forall (fun c => c < ncls (o_lat C)) cs -> legal R m (map (key (o_lat C)) cs) ->
+  let cm := nth mi (o_meths C) (mk_cmeth [] [] [] []) in
+  let ss := nth mi (o_ss C) [] in
+  if length (cm_vp cm) =? 1
+  then exists vp rest, vptrs_of C cs = vp :: rest /\ in_image C (vp + Z.of_nat (nth 0%nat ss 0%nat))%Z
+  else Forall (in_image C) (first_reads C (length (cm_vp cm)) ss (vptrs_of C cs)).
+Proof. exact legal_call_reads_in_bounds. Qed.
+Print Assumptions C04_legal_call_reads_in_bounds.
